@@ -1286,3 +1286,52 @@ theorem gen_cqpt_true [Field K] (dim m : Nat) (cq : List (List K)) (hd : 0 < dim
       rfl
 
 end QM.C08
+
+namespace QM.C08
+variable {K : Type}
+
+theorem mapM_opt_mem {α β : Type} (f : α → Option β) :
+    ∀ (l : List α) (l' : List β), l.mapM f = some l' → ∀ b ∈ l', ∃ a ∈ l, f a = some b := by
+  intro l
+  induction l with
+  | nil => intro l' hl b hb; simp at hl; subst hl; simp at hb
+  | cons a l ih =>
+    intro l' hl b hb
+    rw [List.mapM_cons] at hl
+    simp only [Option.bind_eq_bind, Option.bind_eq_some_iff, Option.pure_def, Option.some.injEq] at hl
+    obtain ⟨b0, hb0, bs, hbs, rfl⟩ := hl
+    rcases List.mem_cons.1 hb with rfl | hb
+    · exact ⟨a, by simp, hb0⟩
+    · obtain ⟨a', ha', hf⟩ := ih bs hbs b hb
+      exact ⟨a', by simp [ha'], hf⟩
+
+/-- `predict` (numpy's `matA @ var` with its shape check) succeeds iff every row has `len(var)` entries -/
+theorem predict_mkCoeffs [Field K] (per : List (List (List K × K))) (var : List K)
+    (h : ∀ rows ∈ per, ∀ ab ∈ rows, ab.1.length = var.length) :
+    predict (mkCoeffs per) var = .ok (predictRaw (mkCoeffs per) var) := by
+  unfold predict
+  rw [if_pos]
+  rw [sortCoeffs_mkCoeffs, List.all_eq_true]
+  intro c hc
+  have hm : c.a ∈ (mkCoeffs per).map (·.a) := List.mem_map.2 ⟨c, hc, rfl⟩
+  rw [mkCoeffs_eq, coeffsFrom_map 0 per (fun a _ => a)] at hm
+  simp only [List.mem_flatten, List.mem_map] at hm
+  obtain ⟨l, ⟨rows, hr, rfl⟩, hl⟩ := hm
+  obtain ⟨ab, hab, he⟩ := List.mem_map.1 hl
+  simp [← he, h rows hr ab hab]
+
+end QM.C08
+
+namespace QM.C08
+variable {K : Type}
+
+end QM.C08
+
+namespace QM.C08
+theorem zip_zip_map_self {α β : Type} (f : α → β) (l : List α) :
+    ((l.zip (l.map f)).zip (l.map f)) = l.map fun a => ((a, f a), f a) := by
+  induction l with
+  | nil => rfl
+  | cons a l ih => simp [ih]
+
+end QM.C08
